@@ -18,7 +18,7 @@ from .common import MergedRT, fix_nans
 from .gbcore import make_gb, install_cuts
 
 PROP = "C11"
-FORMS = ("array", "named_series", "list2", "dict2", "array2d", "list1", "named_list2")
+FORMS = ("array", "named_series", "list2", "dict2", "array2d", "list1", "named_list2", "series_named_0", "dict_int_keys")
 
 
 def cases(tier, seed):
@@ -90,6 +90,10 @@ def _values_in_form(form, cols):
         return A([c for i in range(n) for c in (a.cells[i], b.cells[i])], "float64", (n, 2)), ["_arr_0", "_arr_1"], "frame", None
     if form == "list1":
         return [a], ["_arr_0"], "frame", None
+    if form == "series_named_0":
+        return FakeSeries(a, None, name=0), [0], "series", 0          # a falsy but real name (column 0 of a frame built from an array)
+    if form == "dict_int_keys":
+        return {1: a, 0: b}, [1, 0], "frame", None
     raise Unsupported(form)
 
 
@@ -235,10 +239,12 @@ def replay(case, conc, cand=None):
         elif case["kind"] == "shape":
             form = case["form"]
             vals = {"array": a, "named_series": pd.Series(a, name="x"), "list2": [a, b], "named_list2": [pd.Series(a, name="p"), pd.Series(b, name="q")],
-                    "dict2": {"q": a, "p": b}, "array2d": real_np.column_stack([a, b]), "list1": [a]}[form]
-            exp_kind = "series" if form in ("array", "named_series") else "frame"
-            exp_sname = "x" if form == "named_series" else None
-            exp_names = {"list2": ["_arr_0", "_arr_1"], "named_list2": ["p", "q"], "dict2": ["q", "p"], "array2d": ["_arr_0", "_arr_1"], "list1": ["_arr_0"]}.get(form)
+                    "dict2": {"q": a, "p": b}, "array2d": real_np.column_stack([a, b]), "list1": [a], "series_named_0": pd.Series(a, name=0),
+                    "dict_int_keys": {1: a, 0: b}}[form]
+            exp_kind = "series" if form in ("array", "named_series", "series_named_0") else "frame"
+            exp_sname = "x" if form == "named_series" else (0 if form == "series_named_0" else None)
+            exp_names = {"list2": ["_arr_0", "_arr_1"], "named_list2": ["p", "q"], "dict2": ["q", "p"], "array2d": ["_arr_0", "_arr_1"], "list1": ["_arr_0"],
+                         "dict_int_keys": [1, 0]}.get(form)
             out = getattr(gb, f)(vals, **kw)
         else:
             out = getattr(gb, f)(a, **kw)
@@ -255,7 +261,7 @@ def replay(case, conc, cand=None):
         kind = "series" if isinstance(out, pd.Series) else "frame"
         if kind != exp_kind:
             problems.append(f"a {kind} was returned, expected a {exp_kind}")
-        elif kind == "series" and case["kind"] == "shape" and out.name != exp_sname:
+        elif kind == "series" and case["kind"] == "shape" and not (out.name == exp_sname and type(out.name) is type(exp_sname)):
             problems.append(f"Series named {out.name!r}, expected {exp_sname!r}")
         elif kind == "frame":
             if list(out.columns) != exp_names:
